@@ -208,6 +208,7 @@ func (e *Env) Arrive() {
 	e.mu.Unlock()
 	select {
 	case <-c:
+		simrt.Yield("barrier-wake") // everybody wakes at once: the scheduler orders them
 	case <-e.Done:
 	}
 }
